@@ -325,7 +325,87 @@ void run_worker(Ctx &c, int idx) {
 struct WArg { Ctx *c; int idx; };
 void worker_fn(void *a) { WArg *wa = (WArg *)a; run_worker(*wa->c, wa->idx); }
 
+// ---------------------------------------------------------------- giga run (thorough tier only): gigabytes of live small blocks
+// One size class holds more than 2^32 bytes of live blocks (8.4 million 512-byte blocks, 1.2 million pages, ~5 GiB resident), the
+// accounting is compared with the model at checkpoints around the 32-bit boundaries, and everything is released again. The library
+// finds an emptied page by scanning its page list from the front and then moves the list's last page into the hole; releasing
+// page by page in exactly that order (first full page, then the one that took its slot, ...) keeps every scan at one step -
+// any other order is quadratic and would take hours.
+RunInfo run_giga(const sim::Plan &plan) {
+    simalloc::Config ac;
+    ac.seed = plan.seed;
+    struct aws_allocator *parent = simalloc::create(ac);
+    sim::begin(plan);
+    bool mt = plan.get("multi_threaded", 0) != 0;
+    struct aws_allocator *sba = aws_small_block_allocator_new(parent, mt);
+    if (!sba) sim::violation("c03:new", "aws_small_block_allocator_new returned NULL");
+    const size_t req = (size_t)plan.get("giga_size", 512), cls = class_of(req);
+    const size_t n = (size_t)plan.get("giga_blocks", 0);
+    const size_t per_page = (PAGE - 32) / cls; // chunks per page: the page header takes the first 32 bytes
+    std::vector<uint8_t *> blocks;
+    blocks.reserve(n);
+    const uint64_t wrap = ((uint64_t)1 << 32) / cls; // this many live blocks make exactly 2^32 bytes
+    auto check = [&](const char *where) {
+        size_t active = aws_small_block_allocator_bytes_active(sba), want = blocks.size() * cls;
+        if (active != want)
+            sim::violation("c03:bytes-active", "%s: bytes_active reports %zu, the %zu live blocks of class %zu add up to %zu", where, active, blocks.size(), cls, want);
+        size_t reserved = aws_small_block_allocator_bytes_reserved(sba), pages = sim::live_pages().size();
+        if (reserved != pages * PAGE) sim::violation("c03:bytes-reserved", "%s: bytes_reserved reports %zu, the allocator holds %zu pages = %zu bytes", where, reserved, pages, pages * PAGE);
+    };
+    for (size_t i = 0; i < n; i++) {
+        uint8_t *q = (uint8_t *)aws_mem_acquire(sba, req);
+        if (!q) sim::violation("c03:null", "acquire(%zu) returned NULL", req);
+        q[0] = (uint8_t)(i * 131 + 7);
+        q[req - 1] = (uint8_t)(i * 31 + 1);
+        blocks.push_back(q);
+        uint64_t live = blocks.size();
+        if (live % wrap == 0 || live % wrap == 1 || live % wrap == wrap - 1 || (live & 0xFFFFF) == 0) check("while acquiring");
+    }
+    if (blocks.size() * cls > ((uint64_t)1 << 32)) sim::probe("more_than_4GiB_live_in_one_size_class");
+    check("everything acquired");
+    {   // disjointness and page structure over all blocks
+        std::vector<uint8_t *> sorted(blocks);
+        std::sort(sorted.begin(), sorted.end());
+        for (size_t i = 1; i < sorted.size(); i++)
+            if ((size_t)(sorted[i] - sorted[i - 1]) < cls) sim::violation("c03:overlap", "two live blocks of class %zu are %zu bytes apart", cls, (size_t)(sorted[i] - sorted[i - 1]));
+        for (size_t i = 0; i < blocks.size(); i++)
+            if (blocks[i][0] != (uint8_t)(i * 131 + 7) || blocks[i][req - 1] != (uint8_t)(i * 31 + 1)) sim::violation("c03:clobbered", "live block %zu was modified", i);
+    }
+    // pages in the order they became full (= acquisition order on a fresh allocator); the last page may still be the working page
+    size_t full_pages = blocks.size() / per_page;
+    std::vector<size_t> order(full_pages); // model of the library's page list: page numbers
+    for (size_t k = 0; k < full_pages; k++) order[k] = k;
+    auto release_page = [&](size_t pg) {
+        for (size_t j = 0; j < per_page; j++) { aws_mem_release(sba, blocks[pg * per_page + j]); blocks[pg * per_page + j] = nullptr; }
+    };
+    size_t live_now = blocks.size(), released = 0;
+    while (!order.empty()) {
+        size_t pg = order[0];
+        release_page(pg);
+        order[0] = order.back();
+        order.pop_back();
+        live_now -= per_page;
+        if ((++released & 0x1FFFF) == 0) {
+            size_t active = aws_small_block_allocator_bytes_active(sba);
+            if (active != live_now * cls) sim::violation("c03:bytes-active", "while releasing: bytes_active reports %zu, %zu live blocks of class %zu add up to %zu", active, live_now, cls, live_now * cls);
+        }
+    }
+    for (size_t i = full_pages * per_page; i < blocks.size(); i++) { aws_mem_release(sba, blocks[i]); live_now--; }
+    if (aws_small_block_allocator_bytes_active(sba) != 0) sim::violation("c03:bytes-active", "everything released but bytes_active reports %zu", aws_small_block_allocator_bytes_active(sba));
+    if (sim::live_pages().size() > 5) sim::violation("c03:pages-kept", "everything released but the allocator still holds %zu pages", sim::live_pages().size());
+    aws_small_block_allocator_destroy(sba);
+    if (!sim::live_pages().empty()) sim::violation("c03:destroy-leak", "destroy left %zu page(s) allocated", sim::live_pages().size());
+    simalloc::expect_balanced("after destroy");
+    RunInfo ri;
+    ri.st = sim::end();
+    ri.ops_done = 2 * n;
+    ri.case_fp = sim::mix64(0x616761, n * 1024 + req);
+    ri.nontrivial = true;
+    return ri;
+}
+
 RunInfo run(const sim::Plan &plan) {
+    if (plan.get("giga_blocks", 0) > 0) return run_giga(plan);
     simalloc::Config ac;
     ac.seed = plan.seed;
     ac.has_realloc = plan.get("alloc_realloc", 1) != 0;
@@ -439,6 +519,16 @@ void gen(uint64_t seed, int tier, sim::Plan &p) {
     p.prop = "C03";
     p.seed = seed;
     bool mt = r.chance(0.75);
+    if (tier == 1 && r.chance(0.000004)) {
+        // giga plan (see run_giga): ~5 GiB resident, tens of seconds; a handful per thorough session
+        hgen::sched_config(r, p, false, false, false, false, -1);
+        p.cfg["multi_threaded"] = r.chance(0.3);
+        int64_t size = r.pick(std::vector<int64_t>{512, 512, 300, 257});
+        p.cfg["giga_size"] = size;
+        p.cfg["giga_blocks"] = (((int64_t)1 << 32) / 512) + r.pick(std::vector<int64_t>{2, 100000, 700000});
+        p.cfg["soft_budget"] = 0; p.cfg["hard_budget"] = 0;
+        return;
+    }
     int nw = mt ? (int)r.range(1, 4) : 1;
     p.cfg["multi_threaded"] = mt;
     p.cfg["nworkers"] = nw;
